@@ -20,69 +20,68 @@ def enum_table(res, maxn, maxp):
         tab[(n, p, me, s)] = v.split()
     return tab, None
 
-def oracle(tab, maxn, maxp):
+def oracle(tab, maxn, maxp, shapes=None):
     """The clauses of C04, evaluated on the next-hop tables of the compiled router.
     Returns (number of routes checked, list of failures (dict))."""
     fails, nroutes, nontrivial = [], 0, 0
     def hop(n, p, cur, s, dst):
         h = tab[(n, p, cur, s)][dst]
         return None if h == 'E' else int(h)
-    for n in range(1, maxn + 1):
-        for p in range(1, maxp + 1):
-            N = n * p
-            offpairs = {1: set(), 2: set()}
-            nodepair = {}
-            for s in (0, 1, 2):
-                for src in range(N):
-                    for dst in range(N):
-                        nroutes += 1
-                        route, cur, bad = [], src, None
-                        for _ in range(5):
-                            h = hop(n, p, cur, s, dst)
-                            if h is None or not (0 <= h < N):
-                                bad = 'next_hop(%d) on rank %d is %s' % (dst, cur, h)
-                                break
-                            route.append(h)
-                            cur = h
-                            if h == dst:
-                                break
-                        else:
-                            bad = 'route does not reach the destination within 5 hops: %s' % route
-                        if bad is None:
-                            kinds = []
-                            prev = src
-                            for h in route:
-                                off = (prev // p) != (h // p)
-                                kinds.append('off' if off else 'on')
-                                if off and s in (1, 2):
-                                    if prev % p != h % p:
-                                        bad = 'off-node hop %d->%d joins different on-node indices' % (prev, h)
-                                    offpairs[s].add((prev, h))
-                                    if s == 2:
-                                        nodepair.setdefault((prev // p, h // p), set()).add((prev, h))
-                                prev = h
-                            if len(route) > 1:
-                                nontrivial += 1
-                            if s == 0 and route != [dst]:
-                                bad = 'NONE route is not direct: %s' % route
-                            if s == 1 and kinds not in (['on'], ['off'], ['off', 'on']):
-                                bad = 'NR route has hop kinds %s' % kinds
-                            if s == 2 and kinds not in (['on'], ['off'], ['on', 'off'], ['off', 'on'], ['on', 'off', 'on']):
-                                bad = 'NLNR route has hop kinds %s' % kinds
-                            if src != dst and len(set([src] + route)) != len(route) + 1:
-                                bad = 'route revisits a rank: %s' % ([src] + route)
-                        if bad:
-                            fails.append({'n': n, 'p': p, 'scheme': ['NONE', 'NR', 'NLNR'][s], 'src': src, 'dst': dst,
-                                          'route': route, 'what': bad})
-                            if len(fails) > 20:
-                                return nroutes, nontrivial, fails
-            if not offpairs[2] <= offpairs[1]:
-                fails.append({'n': n, 'p': p, 'what': 'NLNR off-node pairs not a subset of NR pairs',
-                              'extra': sorted(offpairs[2] - offpairs[1])[:5]})
-            for (a, b), prs in nodepair.items():
-                if len(prs) != 1:
-                    fails.append({'n': n, 'p': p, 'what': 'NLNR traffic node %d -> node %d uses %d rank pairs' % (a, b, len(prs)),
-                                  'pairs': sorted(prs)[:5]})
+    for (n, p) in (shapes if shapes is not None else [(a, b) for a in range(1, maxn + 1) for b in range(1, maxp + 1)]):
+        N = n * p
+        offpairs = {1: set(), 2: set()}
+        nodepair = {}
+        for s in (0, 1, 2):
+            for src in range(N):
+                for dst in range(N):
+                    nroutes += 1
+                    route, cur, bad = [], src, None
+                    for _ in range(5):
+                        h = hop(n, p, cur, s, dst)
+                        if h is None or not (0 <= h < N):
+                            bad = 'next_hop(%d) on rank %d is %s' % (dst, cur, h)
+                            break
+                        route.append(h)
+                        cur = h
+                        if h == dst:
+                            break
+                    else:
+                        bad = 'route does not reach the destination within 5 hops: %s' % route
+                    if bad is None:
+                        kinds = []
+                        prev = src
+                        for h in route:
+                            off = (prev // p) != (h // p)
+                            kinds.append('off' if off else 'on')
+                            if off and s in (1, 2):
+                                if prev % p != h % p:
+                                    bad = 'off-node hop %d->%d joins different on-node indices' % (prev, h)
+                                offpairs[s].add((prev, h))
+                                if s == 2:
+                                    nodepair.setdefault((prev // p, h // p), set()).add((prev, h))
+                            prev = h
+                        if len(route) > 1:
+                            nontrivial += 1
+                        if s == 0 and route != [dst]:
+                            bad = 'NONE route is not direct: %s' % route
+                        if s == 1 and kinds not in (['on'], ['off'], ['off', 'on']):
+                            bad = 'NR route has hop kinds %s' % kinds
+                        if s == 2 and kinds not in (['on'], ['off'], ['on', 'off'], ['off', 'on'], ['on', 'off', 'on']):
+                            bad = 'NLNR route has hop kinds %s' % kinds
+                        if src != dst and len(set([src] + route)) != len(route) + 1:
+                            bad = 'route revisits a rank: %s' % ([src] + route)
+                    if bad:
+                        fails.append({'n': n, 'p': p, 'scheme': ['NONE', 'NR', 'NLNR'][s], 'src': src, 'dst': dst,
+                                      'route': route, 'what': bad})
+                        if len(fails) > 20:
+                            return nroutes, nontrivial, fails
+        if not offpairs[2] <= offpairs[1]:
+            fails.append({'n': n, 'p': p, 'what': 'NLNR off-node pairs not a subset of NR pairs',
+                          'extra': sorted(offpairs[2] - offpairs[1])[:5]})
+        for (a, b), prs in nodepair.items():
+            if len(prs) != 1:
+                fails.append({'n': n, 'p': p, 'what': 'NLNR traffic node %d -> node %d uses %d rank pairs' % (a, b, len(prs)),
+                              'pairs': sorted(prs)[:5]})
     return nroutes, nontrivial, fails
 
 def coq_table_check(tab, maxn, maxp):
@@ -125,6 +124,7 @@ def layout_check(tab, tier):
         return 0, [{'what': 'layout_enum harness does not compile against the current headers', 'log': (err or '')[-1200:]}]
     shapes = [(2, 2), (3, 2), (2, 3), (4, 1), (1, 4), (3, 3), (4, 2)] + ([] if tier == 'quick' else [(5, 2), (2, 5), (6, 1), (3, 4), (4, 3), (5, 3)])
     fails, n = [], 0
+    real = {}
     for i, (nn, ppn) in enumerate(shapes):
         r = simrun(exe, nn * ppn, [], ppn=ppn, seed=7 + i, policy='uniform', wall=60)
         if r['verdict'] != 'ok':
@@ -141,15 +141,24 @@ def layout_check(tab, tier):
                 names = ['(comm_size, node_size, local_size, node_id, local_id)', 'local_ranks', 'strided_ranks', 'rank_to_node', 'rank_to_local']
                 for nm, g, w in zip(names, parts, want):
                     if g != w:
-                        fails.append({'what': 'layout of rank %d on %d nodes x %d ranks: %s is %s, block placement gives %s' % (me, nn, ppn, nm, g, w), 'cmd': r['cmd']})
+                        fails.append({'what': 'layout of rank %d on %d nodes x %d ranks: %s is %s, block placement gives %s' % (me, nn, ppn, nm, g, w), 'cmd': r['cmd'], 'level': 'model'})
             elif l.startswith('H ') and ':' in l:
                 t = l.split(':', 1)[0].split()
                 me, sc = int(t[1]), int(t[2])
                 hops = l.split(':', 1)[1].split()
                 ref = tab.get((nn, ppn, me, sc)) if tab else None
                 n += 1
+                real[(nn, ppn, me, sc)] = hops
                 if ref is not None and [str(x) for x in ref] != hops:
-                    fails.append({'what': 'next hops of rank %d (scheme %d) on the layout built by ygm::comm for %d nodes x %d ranks are %s; on the block-placement tables the router gives %s' % (me, sc, nn, ppn, hops, ref), 'cmd': r['cmd']})
+                    fails.append({'what': 'next hops of rank %d (scheme %d) on the layout built by ygm::comm for %d nodes x %d ranks are %s; on the block-placement tables the router gives %s' % (me, sc, nn, ppn, hops, ref), 'cmd': r['cmd'], 'level': 'model'})
+    # the property itself on the REAL tables: the clauses of C04 evaluated on the next hops computed from the layouts ygm::comm built
+    for (nn, ppn) in shapes:
+        if all((nn, ppn, me, sc) in real for me in range(nn * ppn) for sc in range(3)):
+            sub = {k: v for k, v in real.items() if k[0] == nn and k[1] == ppn}
+            try:
+                fails += [dict(f, what=f['what'] + ' (on the layout built by ygm::comm for %d nodes x %d ranks)' % (nn, ppn)) for f in oracle(sub, nn, ppn, shapes=[(nn, ppn)])[2]]
+            except Exception as ex:
+                fails.append({'what': 'route oracle failed on the real tables of %d x %d: %r' % (nn, ppn, ex), 'level': 'model'})
     return n, fails
 
 def run(tier, seed, replay=None):
@@ -172,7 +181,12 @@ def run(tier, seed, replay=None):
     if tab is not None:
         nroutes, nontriv, ofails = oracle(tab, maxn, maxp)
     nlayout, lfails = layout_check(tab, tier)
-    ofails = list(ofails) + lfails
+    ofails = list(ofails) + [f for f in lfails if f.get('level') != 'model']
+    lmodel = [f for f in lfails if f.get('level') == 'model']
+    if lmodel and not tie_msg:
+        # the tables / next hops differ from the modelled block placement: a broken correspondence; the C04 clauses themselves
+        # were evaluated on the real tables above
+        tie_msg = 'the implementation and the model disagree: ' + lmodel[0]['what']
     if ofails:
         res.violation('enum', {'property': 'C04', 'kind': 'enumeration', 'bounds': [maxn, maxp], 'failures': ofails,
                                'replay': 'harness/router_enum.cpp %d %d on the current /repo; then vlib/c04.py oracle' % (maxn, maxp)},
